@@ -81,6 +81,22 @@ fn select_rules(v: &Value) -> Vec<Box<dyn LintRule>> {
       }
       out
     }
+    // through the public selection function: {"tags": [..]?, "include": [..]?, "exclude": [..]?}
+    Value::Object(o) => {
+      let list = |k: &str| -> Option<Vec<String>> {
+        o.get(k).and_then(|x| x.as_array()).map(|a| {
+          a.iter()
+            .map(|s| s.as_str().unwrap_or("").to_string())
+            .collect()
+        })
+      };
+      filtered_rules(
+        get_all_rules(),
+        list("tags"),
+        list("exclude"),
+        list("include"),
+      )
+    }
     _ => vec![],
   }
 }
